@@ -103,8 +103,15 @@ class UpdateReferences:
 
   def __update_field_references(self, oldref, newref, possible_fieldnames):
     for fn in possible_fieldnames:
-      self.__update_reference_in_field(fn, oldref,
-          newref if newref else str(oldref))
+      if newref is None and isinstance(self.get(fn), list):
+        self.__remove_reference_from_list(self.get(fn), oldref)
+      else:
+        self.__update_reference_in_field(fn, oldref,
+            newref if newref else str(oldref))
+
+  def __remove_reference_from_list(self, lst, oldref):
+    lst[:] = [e for e in lst if not (e is oldref or
+              (isinstance(e, gfapy.OrientedLine) and e.line is oldref))]
 
   def __update_nonfield_references(self, oldref, newref, possible_keys):
     for key in possible_keys:
